@@ -117,10 +117,16 @@ pub fn from_string_inner(ast: &DeriveInput) -> syn::Result<TokenStream> {
             .ascii_case_insensitive
             .unwrap_or(type_properties.ascii_case_insensitive);
 
+        // Keys already added to the phf map for this variant; `phf_map!` rejects duplicates.
+        let mut phf_keys: Vec<String> = Vec::new();
+
         // If we don't have any custom variants, add the default serialized name.
         for serialization in variant_properties.get_serializations(type_properties.case_style) {
             if type_properties.use_phf {
-                phf_exact_match_arms.push(quote! { #serialization => #name::#ident #params, });
+                if !phf_keys.contains(&serialization.value()) {
+                    phf_keys.push(serialization.value());
+                    phf_exact_match_arms.push(quote! { #serialization => #name::#ident #params, });
+                }
 
                 if is_ascii_case_insensitive {
                     // Store the lowercase and UPPERCASE variants in the phf map to capture
@@ -130,8 +136,12 @@ pub fn from_string_inner(ast: &DeriveInput) -> syn::Result<TokenStream> {
                         syn::LitStr::new(&ser_string.to_ascii_lowercase(), serialization.span());
                     let upper =
                         syn::LitStr::new(&ser_string.to_ascii_uppercase(), serialization.span());
-                    phf_exact_match_arms.push(quote! { #lower => #name::#ident #params, });
-                    phf_exact_match_arms.push(quote! { #upper => #name::#ident #params, });
+                    for key in [lower, upper] {
+                        if !phf_keys.contains(&key.value()) {
+                            phf_keys.push(key.value());
+                            phf_exact_match_arms.push(quote! { #key => #name::#ident #params, });
+                        }
+                    }
                     standard_match_arms.push(quote! { s if s.eq_ignore_ascii_case(#serialization) => #name::#ident #params, });
                 }
             } else {
